@@ -69,7 +69,11 @@ def execute(cfg, ops, seed, top, snapshot_rejects=False, after_each=None):
             if w is not None:
                 w.close()
                 model.close_session()
-            cur_cfg = rf.Cfg(**{**cur_cfg, **op[1]})
+            over = dict(op[1])
+            if "start_delta" in over:
+                over["start"] = cur_cfg["start"] + over.pop("start_delta")
+            cur_cfg = rf.Cfg(**{**cur_cfg, **over})
+            run.cfg = cur_cfg if over.keys() <= {"uuid", "start"} else run.cfg
             try:
                 w = rf.open_writer(drf, chdir, cur_cfg)
                 model.open_session(cur_cfg)
@@ -279,4 +283,158 @@ def oracle_counters(run):
             if gf != want_file or gd != want_dir:
                 out.append(({"class": "last_file_dir"}, "op %d %r last file %r dir %r model %r"
                             % (i, rec["op"], g[3], g[4], want_file)))
+    return out
+
+
+PROP_ATTRS = ["H5Tget_class", "H5Tget_size", "H5Tget_order", "H5Tget_precision", "H5Tget_offset",
+              "subdir_cadence_secs", "file_cadence_millisecs", "sample_rate_numerator",
+              "sample_rate_denominator", "is_complex", "num_subchannels", "is_continuous", "epoch",
+              "digital_rf_time_description", "digital_rf_version"]
+
+
+def _attrs(obj):
+    out = {}
+    for k, v in obj.attrs.items():
+        try:
+            v = v.item()
+        except AttributeError:
+            pass
+        if isinstance(v, bytes):
+            v = v.decode("ascii")
+        out[k] = v
+    return out
+
+
+def oracle_selfdesc(run, regen=True):
+    """C06: every finalized file is interpretable on its own; attributes duplicate the channel
+    properties; session attributes; regeneration of drf_properties.h5 from every file."""
+    import h5py
+    import digital_rf as drf
+
+    cfg, model = run.cfg, run.model
+    out = []
+    chdir = run.chdir
+    pfile = os.path.join(chdir, "drf_properties.h5")
+    with h5py.File(pfile, "r") as f:
+        props = _attrs(f)
+    if sorted(props) != sorted(PROP_ATTRS):
+        out.append(({"class": "properties_attr_set"}, "drf_properties.h5 has %s" % sorted(props)))
+    exp = {"subdir_cadence_secs": cfg["sc"], "file_cadence_millisecs": cfg["fc"], "sample_rate_numerator": cfg["n"],
+           "sample_rate_denominator": cfg["d"], "is_complex": int(cfg["cplx"]), "num_subchannels": cfg["nsub"],
+           "is_continuous": int(cfg["cont"]), "H5Tget_size": cfg["size"],
+           "H5Tget_order": 1 if (cfg["order"] == ">" and cfg["size"] > 1) else 0,
+           "H5Tget_class": 1 if cfg["kind"] == "f" else 0, "H5Tget_precision": cfg["size"] * 8, "H5Tget_offset": 0,
+           "epoch": "1970-01-01T00:00:00Z"}
+    for k, v in exp.items():
+        if props.get(k) != v:
+            out.append(({"class": "properties_value", "attr": k}, "drf_properties.h5 %s=%r expected %r" % (k, props.get(k), v)))
+    files = sorted(p for p in rf.list_tree(chdir) if "/rf@" in p)
+    per_session = {}
+    fattrs = {}
+    for rel in files:
+        with h5py.File(os.path.join(chdir, rel), "r") as f:
+            idx = f["rf_data_index"][...].astype(object)
+            nrows = f["rf_data"].shape[0]
+            a = _attrs(f["rf_data"])
+        fattrs[rel] = a
+        base = os.path.basename(rel)
+        S, mmm = base[3:-3].split(".")
+        fms = int(S) * 1000 + int(mmm)
+        lo, hi = rf.file_window(fms, cfg)
+        # --- index rules
+        bad = None
+        if idx.shape[0] < 1 or idx.shape[1] != 2:
+            bad = "shape %s" % (idx.shape,)
+        else:
+            if int(idx[0, 1]) != 0:
+                bad = "first offset %d" % int(idx[0, 1])
+            for r in range(1, idx.shape[0]):
+                di = int(idx[r, 0]) - int(idx[r - 1, 0])
+                do = int(idx[r, 1]) - int(idx[r - 1, 1])
+                if di <= 0 or do <= 0:
+                    bad = "row %d not strictly increasing" % r
+                elif do > di:
+                    bad = "row %d overlaps previous block" % r
+            if int(idx[-1, 1]) >= nrows:
+                bad = "last offset %d beyond data (%d rows)" % (int(idx[-1, 1]), nrows)
+            if nrows > hi - lo:
+                bad = "%d rows exceed window of %d" % (nrows, hi - lo)
+            last_end = int(idx[-1, 0]) + (nrows - int(idx[-1, 1]))
+            if int(idx[0, 0]) < lo or last_end > hi:
+                bad = "indices [%d,%d) outside window [%d,%d)" % (int(idx[0, 0]), last_end, lo, hi)
+        if bad:
+            out.append(({"class": "index_rules"}, "%s: %s" % (rel, bad)))
+        # --- duplicated attributes
+        for k in PROP_ATTRS:
+            if a.get(k) != props.get(k):
+                out.append(({"class": "attr_mismatch", "attr": k}, "%s %s=%r properties %r" % (rel, k, a.get(k), props.get(k))))
+        want = model.file_sessions.get(fms)
+        if want is None:
+            out.append(({"class": "unexpected_file"}, rel))
+            continue
+        uuid, seq, sess_start = want
+        it = a.get("init_utc_timestamp")
+        if it is None or abs(int(it) - sess_start * cfg["d"] // cfg["n"]) > 1:
+            out.append(({"class": "init_utc_timestamp"}, "%s init_utc_timestamp %r, session start second %d"
+                        % (rel, it, sess_start * cfg["d"] // cfg["n"])))
+        if a.get("uuid_str") != uuid:
+            out.append(({"class": "uuid"}, "%s uuid %r expected %r" % (rel, a.get("uuid_str"), uuid)))
+        per_session.setdefault(uuid, []).append((fms, a.get("sequence_num"), a.get("init_utc_timestamp"), rel))
+        for k in ("sequence_num", "init_utc_timestamp", "computer_time", "uuid_str"):
+            if k not in a:
+                out.append(({"class": "attr_missing", "attr": k}, rel))
+    for uuid, lst in per_session.items():
+        lst.sort()
+        seqs = [x[1] for x in lst]
+        if any(b <= a for a, b in zip(seqs, seqs[1:])):
+            out.append(({"class": "sequence_num_order"}, "session %s: %s" % (uuid, lst)))
+        inits = {x[2] for x in lst}
+        if len(inits) != 1:
+            out.append(({"class": "init_utc_varies"}, "session %s: %s" % (uuid, sorted(inits))))
+    if not regen or not files:
+        return out
+    # --- regeneration from every single file
+    for rel in files:
+        scratch = core.new_scratch("regen")
+        try:
+            ch2 = os.path.join(scratch, cfg["ch"])
+            os.makedirs(os.path.join(ch2, os.path.dirname(rel)))
+            os.link(os.path.join(chdir, rel), os.path.join(ch2, rel))
+            try:
+                drf.recreate_properties_file(ch2)
+            except Exception as e:  # noqa: BLE001
+                out.append(({"class": "recreate_failed"}, "%s: %r" % (rel, e)))
+                continue
+            with h5py.File(os.path.join(ch2, "drf_properties.h5"), "r") as f:
+                p2 = _attrs(f)
+            if p2 != props:
+                diff = {k: (p2.get(k), props.get(k)) for k in set(p2) | set(props) if p2.get(k) != props.get(k)}
+                out.append(({"class": "recreated_properties_differ"}, "%s: %s" % (rel, diff)))
+        finally:
+            core.rm(scratch)
+    # --- full channel: delete, recreate, reader must behave identically
+    try:
+        r1 = drf.DigitalRFReader(run.top)
+        b1 = r1.get_bounds(cfg["ch"])
+        d1 = [(k, v.tobytes(), str(v.dtype)) for k, v in rf.read_runs(r1, cfg["ch"], b1[0], b1[1])]
+        p1 = dict(r1.get_properties(cfg["ch"]))
+        r1.close()
+        saved = open(pfile, "rb").read()
+        os.unlink(pfile)
+        try:
+            drf.recreate_properties_file(chdir)
+            r2 = drf.DigitalRFReader(run.top)
+            b2 = r2.get_bounds(cfg["ch"])
+            d2 = [(k, v.tobytes(), str(v.dtype)) for k, v in rf.read_runs(r2, cfg["ch"], b2[0], b2[1])]
+            p2 = dict(r2.get_properties(cfg["ch"]))
+            r2.close()
+            if b1 != b2 or d1 != d2:
+                out.append(({"class": "regenerated_channel_reads_differently"}, "bounds %s vs %s" % (b1, b2)))
+            if {k: str(v) for k, v in p1.items()} != {k: str(v) for k, v in p2.items()}:
+                out.append(({"class": "regenerated_properties_differ"}, "%s vs %s" % (p1, p2)))
+        finally:
+            with open(pfile, "wb") as f:
+                f.write(saved)
+    except Exception as e:  # noqa: BLE001
+        out.append(({"class": "regeneration_raised"}, repr(e)))
     return out
